@@ -177,7 +177,7 @@ func (c *Ctx) newExplorer(pkg string, selfType *types.Named, trackedFields ...st
 		st := selfType.Underlying().(*types.Struct)
 		for i := 0; i < st.NumFields(); i++ {
 			for _, n := range trackedFields {
-				if st.Field(i).Name() == n {
+				if fieldName(st.Field(i)) == n {
 					e.tracked[st.Field(i)] = true
 				}
 			}
@@ -294,7 +294,7 @@ func (e *explorer) store(s *pstate, f *pframe, p aval, v aval, in ssa.Instructio
 		s.cells[p.cell] = v
 	case kFieldPtr:
 		s.heap[p.field] = v
-		s.trace = append(s.trace, pevent{Kind: "store", Args: []string{p.field.Name(), v.String()}, Pos: e.c.instrPos(in)})
+		s.trace = append(s.trace, pevent{Kind: "store", Args: []string{fieldName(p.field), v.String()}, Pos: e.c.instrPos(in)})
 	}
 }
 
